@@ -248,8 +248,8 @@ v("C18", "reverse-dest-renamed", LD, '        "-R",\n        "--reverse",\n     
 v("C18", "nodmd-stores-true", LD, '        "--nodmd",\n        dest="include_dmd",\n        action="store_false",', '        "--nodmd",\n        dest="include_dmd",\n        action="store_true",', rules=["C18.R2"])
 v("C18", "mv-runs-cp", LD, "    parser.set_defaults(func=_run_mv)", "    parser.set_defaults(func=_run_cp)", rules=["C18.R3"])
 v("C19", "gap-without-nwritten", RF, "        gap_size = (next_avail_sample - self._next_avail_sample) - nwritten", "        gap_size = next_avail_sample - self._next_avail_sample", rules=["C19.R2"])
-v("C19", "returns-prestate", RF, "        self._total_gap_samples += gap_size\n        self._next_avail_sample = next_avail_sample\n        return next_avail_sample\n",
-  "        self._total_gap_samples += gap_size\n        prev = self._next_avail_sample\n        self._next_avail_sample = next_avail_sample\n        return prev\n", rules=["C19.R2"])
+v("C19", "returns-prestate", RF, "        self._total_gap_samples += gap_size\n        self._next_avail_sample = next_avail_sample\n\n        return next_avail_sample\n",
+  "        self._total_gap_samples += gap_size\n        prev = self._next_avail_sample\n        self._next_avail_sample = next_avail_sample\n\n        return prev\n", rules=["C19.R2"])
 v("C19", "ext-returns-computed", EXT, "\t/* success */\n\tretObj = Py_BuildValue(\"K\", hdf5_write_data_object->global_index);\n\treturn(retObj);\n\n}\n\n\nstatic PyObject * _py_rf_write_hdf5_rf_block_write",
   "\t/* success */\n\tretObj = Py_BuildValue(\"K\", next_sample + vector_length);\n\treturn(retObj);\n\n}\n\n\nstatic PyObject * _py_rf_write_hdf5_rf_block_write", rules=["C19.R3"])
 v("C19", "del-before-cache", RF, "            self._last_file_written = self.get_last_file_written()\n", "            del self._channelObj\n            self._last_file_written = self.get_last_file_written()\n", rules=["C19.R4"])
